@@ -1,24 +1,60 @@
 //go:build verif
 
+// Driver for property C15 (API v2 codec). Modes:
+//   keys                 pure key/range functions on generated inputs + property oracles (P lines)
+//   replay op m id a...  one pure-function case
+//   catalogue            reflection catalogue of all command types (rows for Gen_Catalogue.v)
+//   dump | leaves        exploration helpers
+//   e2e                  raw/txn workloads under codec v1 / v2 keyspace A / keyspace B on one mock store
 package main
 
 import (
 	"fmt"
 	"os"
+	"strconv"
+
+	"github.com/pingcap/log"
+	"github.com/tikv/client-go/v2/internal/apicodec"
+	"go.uber.org/zap/zapcore"
 )
+
+func verifEncodeRangeRev(c apicodec.Codec, s, e []byte) ([]byte, []byte) {
+	a, b, ok := apicodec.VerifEncodeRangeReverse(c, s, e)
+	if !ok {
+		panic("not a v2 codec")
+	}
+	return a, b
+}
 
 func main() {
 	mode := "keys"
 	if len(os.Args) > 1 {
 		mode = os.Args[1]
 	}
+	seed, _ := strconv.ParseInt(os.Getenv("VERIF_SEED"), 10, 64)
+	if seed == 0 {
+		seed = 1
+	}
+	tier := os.Getenv("VERIF_TIER")
+	log.SetLevel(zapcore.FatalLevel) // DecodeKey logs a stack trace for every rejected key
+	initOut()
+	defer out.Flush()
 	switch mode {
+	case "keys":
+		genKeys(seed, tier)
+	case "replay":
+		replayKeys(os.Args[2:])
+	case "catalogue":
+		runCatalogue()
+	case "e2e":
+		runE2E(seed, tier)
 	case "dump":
 		dumpTypes()
 	case "leaves":
 		dumpLeaves()
 	default:
-		fmt.Println("unknown mode")
+		fmt.Fprintln(os.Stderr, "unknown mode")
+		out.Flush()
 		os.Exit(2)
 	}
 }
